@@ -19,6 +19,7 @@ from panoptica.utils.processing_pair import (
 )
 import numpy as np
 from panoptica.utils.config import SupportsConfig
+from panoptica.utils.numpy_utils import _get_smallest_fitting_uint
 from panoptica.utils.segmentation_class import (
     SegmentationClassGroups,
     LabelGroup,
@@ -202,9 +203,18 @@ class Panoptica_Evaluator(SupportsConfig):
         if single_instance_mode and not isinstance(
             processing_pair, MatchedInstancePair
         ):
+            prediction_arr_single = processing_pair_grouped.prediction_arr
+            reference_arr_single = processing_pair_grouped.reference_arr
+            if not np.issubdtype(prediction_arr_single.dtype, np.unsignedinteger):
+                # semantic input may be signed; only the group's (positive) label is left, so the cast is lossless
+                uint_dtype = _get_smallest_fitting_uint(
+                    max(prediction_arr_single.max(), reference_arr_single.max())
+                )
+                prediction_arr_single = prediction_arr_single.astype(uint_dtype)
+                reference_arr_single = reference_arr_single.astype(uint_dtype)
             processing_pair_grouped = MatchedInstancePair(
-                prediction_arr=processing_pair_grouped.prediction_arr,
-                reference_arr=processing_pair_grouped.reference_arr,
+                prediction_arr=prediction_arr_single,
+                reference_arr=reference_arr_single,
             )
             decision_threshold = 0.0
 
